@@ -279,4 +279,85 @@ theorem swapPoolOut_ok {sender : Addr} {din dout : Denom} {id : Nat} {a ain : In
       · simp [setPool]
 end
 
+/-! ### top coins of an inspected result; the fee payment -/
+
+theorem inspect_result_in {σ : Type} (f : Denom → Denom → Nat → Int → σ → Res (Int × σ)) (rev : Bool)
+    (r : Route) (a : Int) (s : σ) (res : Int) (rr : RResult) (s' : σ)
+    (h : inspect f genIn rev r a s = .ok (res, rr, s')) : rr.tin = ⟨r.din, a⟩ ∧ rr.tout = ⟨r.dout, res⟩ := by
+  cases r with
+  | pool din dout id =>
+    simp only [inspect] at h
+    obtain ⟨⟨x, s1⟩, _, h⟩ := bind_ok h
+    simp only [genIn, Res.ok.injEq, Prod.mk.injEq] at h
+    obtain ⟨e1, e2, _⟩ := h; subst e1 e2; exact ⟨rfl, rfl⟩
+  | series din dout rs =>
+    simp only [inspect] at h
+    obtain ⟨⟨x, rrs, s1⟩, _, h⟩ := bind_ok h
+    simp only [genIn, Res.ok.injEq, Prod.mk.injEq] at h
+    obtain ⟨e1, e2, _⟩ := h; subst e1 e2; exact ⟨rfl, rfl⟩
+  | parallel din dout rs ws =>
+    simp only [inspect] at h
+    split at h
+    · simp at h
+    · split at h
+      · split at h <;> try split at h
+        all_goals simp at h
+      · obtain ⟨amounts, _, h⟩ := bind_ok h
+        obtain ⟨⟨x, rrs, s1⟩, _, h⟩ := bind_ok h
+        simp only [genIn, Res.ok.injEq, Prod.mk.injEq] at h
+        obtain ⟨e1, e2, _⟩ := h; subst e1 e2; exact ⟨rfl, rfl⟩
+  | nil _ _ => simp [inspect] at h
+
+theorem inspect_result_out {σ : Type} (f : Denom → Denom → Nat → Int → σ → Res (Int × σ)) (rev : Bool)
+    (r : Route) (a : Int) (s : σ) (res : Int) (rr : RResult) (s' : σ)
+    (h : inspect f genOut rev r a s = .ok (res, rr, s')) : rr.tin = ⟨r.din, res⟩ ∧ rr.tout = ⟨r.dout, a⟩ := by
+  cases r with
+  | pool din dout id =>
+    simp only [inspect] at h
+    obtain ⟨⟨x, s1⟩, _, h⟩ := bind_ok h
+    simp only [genOut, Res.ok.injEq, Prod.mk.injEq] at h
+    obtain ⟨e1, e2, _⟩ := h; subst e1 e2; exact ⟨rfl, rfl⟩
+  | series din dout rs =>
+    simp only [inspect] at h
+    obtain ⟨⟨x, rrs, s1⟩, _, h⟩ := bind_ok h
+    simp only [genOut, Res.ok.injEq, Prod.mk.injEq] at h
+    obtain ⟨e1, e2, _⟩ := h; subst e1 e2; exact ⟨rfl, rfl⟩
+  | parallel din dout rs ws =>
+    simp only [inspect] at h
+    split at h
+    · simp at h
+    · split at h
+      · split at h <;> try split at h
+        all_goals simp at h
+      · obtain ⟨amounts, _, h⟩ := bind_ok h
+        obtain ⟨⟨x, rrs, s1⟩, _, h⟩ := bind_ok h
+        simp only [genOut, Res.ok.injEq, Prod.mk.injEq] at h
+        obtain ⟨e1, e2, _⟩ := h; subst e1 e2; exact ⟨rfl, rfl⟩
+  | nil _ _ => simp [inspect] at h
+
+/-- the interface-fee payment: the sender pays exactly `fee ≥ 0` of `d` to the provider (nothing without provider) -/
+theorem payFee_ok {b b' : Bank} {sender : Addr} {prov : Option Addr} {d : Denom} {fee : Int}
+    (h : payFee b sender prov d fee = .ok b') (hp : ∀ p, prov = some p → sender ≠ p) (h0 : prov = none → fee = 0) :
+    0 ≤ fee ∧ (∀ d', b'.bal sender d' = b.bal sender d' - δ d fee d') ∧
+    (∀ p, prov = some p → ∀ d', b'.bal p d' = b.bal p d' + δ d fee d') := by
+  unfold payFee at h
+  cases prov with
+  | none =>
+    simp only [Res.ok.injEq] at h; subst h
+    have := h0 rfl; subst this
+    exact ⟨by omega, fun d' => by rw [δ_zero]; omega, fun p hp' => by simp at hp'⟩
+  | some p =>
+    simp only at h
+    by_cases hn : fee < 0
+    · simp [hn] at h
+    · simp only [hn, if_false] at h
+      by_cases hpos : fee > 0
+      · simp only [hpos, if_true] at h
+        obtain ⟨_, _, m1, m2, _⟩ := send_moves h (hp p rfl)
+        exact ⟨by omega, m1, fun q hq => by simp at hq; subst hq; exact m2⟩
+      · simp only [hpos, if_false, Res.ok.injEq] at h; subst h
+        have : fee = 0 := by omega
+        subst this
+        exact ⟨by omega, fun d' => by rw [δ_zero]; omega, fun q _ d' => by rw [δ_zero]; omega⟩
+
 end Sunrise.Route
